@@ -160,13 +160,13 @@ def finish(ctx):
     lines = []
     if concrete:
         for i, v in enumerate(concrete[:5]):
-            path = os.path.join(V, "replays", "%s-%s-%d.json" % (ctx.pid, ctx.seed, i))
+            path = os.path.join(V, "replays", "%s-%s-%d%s.json" % (ctx.pid, ctx.seed, i, "-replayed" if getattr(ctx, "replay", None) else ""))
             json.dump(dict(property=ctx.pid, kind=v["kind"], what=v["what"], replay=v["replay"],
                            broken_obligations=[o[0] for o in failed_obl]), open(path, "w"), indent=1)
             lines.append("VIOLATION property=%s replay=%s" % (ctx.pid, path))
         rc = 1
     elif failed_obl or ctx.violations:
-        path = os.path.join(V, "replays", "%s-%s-obligation.json" % (ctx.pid, ctx.seed))
+        path = os.path.join(V, "replays", "%s-%s-obligation%s.json" % (ctx.pid, ctx.seed, "-replayed" if getattr(ctx, "replay", None) else ""))
         json.dump(dict(property=ctx.pid, kind="proof-or-correspondence-broken",
                        broken_obligations=[dict(name=o[0], detail=o[2][-3000:]) for o in failed_obl],
                        unconfirmed=[v for v in ctx.violations],
@@ -188,6 +188,12 @@ def finish(ctx):
     ev = dict(property_id=ctx.pid, tier=ctx.tier, seed=ctx.seed, level="proof", coverage=cov,
               assumptions=ctx.trusted, wall_s=round(time.time() - ctx.t0, 2), violations=len(lines),
               repo_tree=repo_tree_hash())
+    if getattr(ctx, "replay", None):
+        # a replay re-runs the recorded input only: it neither replaces the evidence of the last full run nor claims coverage
+        for l in lines:
+            print(l, flush=True)
+        print("REPLAY property=%s file=%s %s" % (ctx.pid, ctx.replay, "reproduced" if rc else "not reproduced on the current tree"))
+        sys.exit(rc)
     json.dump(ev, open(os.path.join(V, "evidence", ctx.pid + ".json"), "w"), indent=1)
     for l in lines:
         print(l, flush=True)
